@@ -2032,7 +2032,6 @@ func scenSlowFSMInstall(e *engineA) error {
 	if err := e.boot(3); err != nil {
 		return err
 	}
-	e.cl.startInfoSampler(e.hb() / 2)
 	l := e.cl.leader()
 	if l == nil {
 		return fmt.Errorf("no leader")
@@ -2043,8 +2042,9 @@ func scenSlowFSMInstall(e *engineA) error {
 	}
 	f := e.others(l)[e.rng.Intn(2)]
 	e.rc.emit(&ev.Rec{K: "fault", Op: "slow-state-machine-then-install", Nid: f.nid})
-	e.pc.setSlow(f.dir, "fsm.beforeApply", e.hb()/2)
-	// a backlog on f: committed, not yet applied there
+	// f's state machine stops before the next entry it is given: a backlog of
+	// committed entries builds up, which it will read from the log later
+	e.pc.hold(f.dir, "fsm.beforeApply")
 	for i := 0; i < 10+e.rng.Intn(10); i++ {
 		e.cl.fsmOpPad(1, l, "update", pad)
 	}
@@ -2060,10 +2060,15 @@ func scenSlowFSMInstall(e *engineA) error {
 		info, ok := l.info(false)
 		return ok && info.FirstLogIndex > 4
 	})
-	// f is still working through its backlog when the snapshot arrives
+	// the snapshot arrives while the backlog is untouched; the state machine
+	// goes on a moment after the snapshot was stored
+	before := e.pc.count(f.dir, "install.stored")
 	e.isolate(f, false)
-	e.sleepHB(6, 10)
-	e.pc.setSlow(f.dir, "fsm.beforeApply", 0)
+	e.waitFor(60, func() bool { return e.pc.count(f.dir, "install.stored") > before })
+	e.sleepHB(1, 2)
+	e.pc.release(f.dir, "fsm.beforeApply")
+	e.sleepHB(3, 5)
+	e.cl.startInfoSampler(e.hb() / 2)
 	e.startClients(2, map[string]int{"update": 3, "read": 1})
 	e.sleepHB(4, 8)
 	return e.finish()
